@@ -126,6 +126,42 @@ def handle (j : J) : J :=
                | .ok o => reportedToJ t (reportArgs o.sig o.fields o.va)
                | .error _ => .null),
             ("py_c1", specToJ t npo s c1.call)]
+    | some "nest" =>
+      -- outer = (sig, c1, c2); inner = (sig_in, in_c1, in_c2); object ids: outer 1, inner 2; thread 0 / 1
+      match (j.get? "sig_in").bind (sigOfJ t), (j.get? "in_c1").bind (callOfJ t), (j.get? "in_c2").bind (callOfJ t),
+            (j.get? "c2").bind (callOfJ t) with
+      | some sIn, some ic1, some ic2, some oc2 =>
+        let lateOps : List LateOp := ((j.getArr? "late").getD []).filterMap (lateOfJ t)
+        match functorInit s c1.call (c1.override.getD false) (c1.ignore.getD false),
+              functorInit sIn ic1.call (ic1.override.getD false) (ic1.ignore.getD false) with
+        | .ok Fo0, .ok Fi =>
+          let Fo := lateOps.foldl Functor.late Fo0
+          let shared := (j.getBool? "shared_tls").getD false
+          match parseOverrides true Fo oc2.call oc2.override oc2.ignore with
+          | .error e => .obj [("out_init", .str "ok"), ("in_init", .str "ok"), ("call", .obj [("err", .str (pyErrName e))])]
+          | .ok c' =>
+            -- members of the outer functor during the call = what the wrapped function would see
+            let mine := pyCall s c'
+            -- the overrides of this invocation: every positional parameter by name, plus the keywords
+            let ov : KW := s.posNames.zip c'.args ++ c'.kwargs
+            let attrs : Nat → KW := fun o =>
+              if o == 2 then withDefaults Fi.bound sIn.pos else withDefaults Fo.bound s.pos
+            let st : OvStore := OvStore.enter [] 1 0 ov
+            let rd (o th : Nat) (ps : List Param) : J := .arr (ps.map fun p =>
+              .arr [.str (t.name p.name),
+                    match (if shared then resolveSharedTLS attrs st o th p.name else resolve attrs st o th p.name) with
+                    | some v => .int v
+                    | none => .str "MISSING"])
+            .obj [("out_init", .str "ok"), ("in_init", .str "ok"),
+                  ("call", .obj [("ok", .obj [
+                     ("mine", outcomeToJ t mine),
+                     ("read", rd 2 0 sIn.pos),
+                     ("called", outcomeToJ t (functorCall true Fi ic2.call ic2.override ic2.ignore)),
+                     ("thread_read_self", rd 1 1 s.pos),
+                     ("thread_read_inner", rd 2 1 sIn.pos)])])]
+        | .error e, _ => .obj [("out_init", .str (pyErrName e))]
+        | .ok _, .error e => .obj [("out_init", .str "ok"), ("in_init", .str (pyErrName e))]
+      | _, _, _, _ => bad "nest"
     | some "hist" =>
       -- construct, then a sequence of rebinds; per step: reported args and what __init__ sees
       let steps : List KW := ((j.getArr? "steps").getD []).filterMap (fun st => (st.get? "upd").bind (kwOfJ t))
